@@ -61,6 +61,9 @@ fn main() {
             let n = a.n.unwrap_or(if thorough { 200_000 } else { 20_000 });
             let replay_text = a.replay.clone();
             vh::props::c13::run(&mut rep, thorough, n, replay_text.as_deref());
+            if !cfg!(miri) && replay_text.is_none() {
+                vh::props::c13::run_live(&mut rep, thorough);
+            }
         }
         "C14" => {
             let n = a.n.unwrap_or(if thorough { 2_000_000 } else { 100_000 });
